@@ -99,6 +99,13 @@ static void run_norm(Ctx& ctx, const Item& it) {
           if (variant == 2) { s.begin = 0; s.end = as; s.step = 1; }
           NormShape sp = s; sp.alias = 0;
           alias_pair(ctx, gen_normalize(mod, s, it.cfg.name), gen_normalize(mod, sp, it.cfg.name), true);
+          if (rs <= 1) {  // a one-limb (or empty) result over limb 0 of its own source: its stride addresses nothing, so any stride / any step is the same in-place call
+            NormShape v = s; v.rsl = N + 5;
+            if (variant == 0) v.asl = sl == N ? 2 * N : N;
+            if (variant == 2) { v.step = 2; v.end = as; }
+            NormShape vp = v; vp.alias = 0;
+            alias_pair(ctx, gen_normalize(mod, v, it.cfg.name), gen_normalize(mod, vp, it.cfg.name), true);
+          }
         }
 }
 
